@@ -16,36 +16,42 @@ pub fn preprocess(source: &str) -> String {
 /// Removes the OSCAT ranged comment. This is not valid IEC 61131, but there
 /// are enough of these that it is worthwhile.
 pub fn remove_oscat_comment(source: String) -> String {
-    let len_key = 21; // The length of "(*@KEY@:DESCRIPTION*)"
-    if let Some(start) = source.find("(*@KEY@:DESCRIPTION*)") {
-        if let Some(end) = source.find("(*@KEY@:END_DESCRIPTION*)") {
-            if start < end {
-                let prelude = &source[0..start + len_key];
-                let epilog = &source[end..source.len()];
+    const START_KEY: &str = "(*@KEY@:DESCRIPTION*)";
+    const END_KEY: &str = "(*@KEY@:END_DESCRIPTION*)";
 
-                let mut output = String::with_capacity(source.len());
-                output.push_str(prelude);
+    let mut output = String::with_capacity(source.len());
+    let mut rest = source.as_str();
 
-                // Replace the comment internally character-by-character
-                // so that we retain the exact same positions. Positions are
-                // byte offsets, so a character that takes several bytes is
-                // replaced by as many spaces.
-                for c in source[start + len_key..end].chars() {
-                    if c == '\n' {
-                        output.push('\n');
-                    } else {
-                        for _ in 0..c.len_utf8() {
-                            output.push(' ');
-                        }
-                    }
+    // A file can have more than one description (normally there is one for
+    // each declaration), so replace each of them.
+    while let Some(start) = rest.find(START_KEY) {
+        let body_start = start + START_KEY.len();
+        let body_len = match rest[body_start..].find(END_KEY) {
+            Some(len) => len,
+            None => break,
+        };
+        output.push_str(&rest[..body_start]);
+
+        // Replace the comment internally character-by-character
+        // so that we retain the exact same positions. Positions are
+        // byte offsets, so a character that takes several bytes is
+        // replaced by as many spaces.
+        for c in rest[body_start..body_start + body_len].chars() {
+            if c == '\n' {
+                output.push('\n');
+            } else {
+                for _ in 0..c.len_utf8() {
+                    output.push(' ');
                 }
-
-                output.push_str(epilog);
-                return output;
             }
         }
+
+        output.push_str(END_KEY);
+        rest = &rest[body_start + body_len + END_KEY.len()..];
     }
-    source
+
+    output.push_str(rest);
+    output
 }
 
 #[cfg(test)]
